@@ -3,6 +3,7 @@
 #include "alg_rt.hpp"
 
 #include <nlohmann/json.hpp>
+#include <unifex/tracing/async_stack.hpp>
 
 #include <fstream>
 
@@ -54,6 +55,10 @@ static json run_behaviour(Factory make, const json& beh, World& w) {
       auto& c = w.leaf[n];
       if (!c.complete) { out.push_back({{"error", "leaf not completable"}, {"l", n}}); break; }
       auto f = c.complete; f(st["ch"].get<std::string>()[0]);
+    } else if (k == "I") {
+      auto it = w.innerStop.find(n);
+      if (it == w.innerStop.end()) { out.push_back({{"error", "no inner stop source"}, {"n", n}}); break; }
+      auto f = it->second; f();
     } else if (k == "C") {
       auto& q = w.ctxq[n];
       if (q.empty()) { out.push_back({{"error", "context queue empty"}, {"ctx", n}}); break; }
@@ -61,7 +66,11 @@ static json run_behaviour(Factory make, const json& beh, World& w) {
     }
     int pending = 0; for (auto& [id, c] : w.leaf) if (c.started && !c.completed) ++pending;
     for (auto& [c, q] : w.ctxq) pending += (int)q.size();
-    vrt::ev("{\"e\":\"Quiescent\",\"pending\":%d}", pending);
+    int asr = 0;
+#if !UNIFEX_NO_ASYNC_STACKS
+    asr = unifex::tryGetCurrentAsyncStackRoot() != nullptr ? 1 : 0;   // the harness thread has no active async stack root outside library calls
+#endif
+    vrt::ev("{\"e\":\"Quiescent\",\"pending\":%d,\"asr\":%d}", pending, asr);
     out.push_back(obs_json(w));
   }
   // drain: finish whatever is still outstanding so that the operation can be destroyed legally
@@ -98,6 +107,7 @@ int main(int argc, char** argv) {
     auto it = Registry::map().find(shape);
     if (it == Registry::map().end()) { ++skipped; continue; }
     vrt::ev("{\"e\":\"Reset\",\"x\":%ld,\"shape\":%d}", x, shape);
+    std::fprintf(stderr, "@@X %ld\n", x);
     Track::reset();
     json obs;
     size_t live = 0; std::vector<std::string> bad;
